@@ -78,6 +78,10 @@ def run(tier: str, seed: int, pid="C02") -> int:
     e0 = next(e for e in ex["events"] if e["op"] in ("spec", "terms"))
     run_.sample({"tid": ex["tid"], "event": e0 if e0["op"] == "terms" else {**e0, "rules": e0["rules"][:3]}})
     judge(run_, traces, "campaign")
+    if pid == "C01":
+        # specifications chosen by TLC (every productive system of the tree universe): counts judged against TreeUniverse.tla
+        from . import c12
+        c12.tree_gen_traces(run_, tier, seed, ("count",))
     run_.rule = ("one trace per search of the campaign; events = the specifications handed back (auto_search result and the "
                  "'smallest' option), as raw rule list and as final rules, resp. the root's terms for n <= 6 with all parameter "
                  "values; non-trivial = a specification containing derived rule forms or >= 5 rules / an enumeration at n >= 3")
